@@ -36,7 +36,7 @@ import mp4walk
 DASH_NS = "urn:mpeg:dash:schema:mpd:2011"
 NS = {"d": DASH_NS}
 HOST = "http://localhost"
-MAX_LOOPS = {"live": 100, "vod": 2}       # upstream's own refresh budget (check_manifest.py)
+MAX_LOOPS = {"live": 100, "vod": 2, "odvod": 2}       # upstream's own refresh budget (check_manifest.py)
 
 
 # --------------------------------------------------------------------------- cases
